@@ -33,8 +33,32 @@ dx5_dt = i0 + i2 + i3 - x5
 """
 
 
+TWINS = """states("membrane", V=-80.0, v=0.5, Ca=1.0, ca=2.0)
+parameters("membrane", K_o=5.4, k_o=0.1, g=0.3)
+states("gate", m=0.1, h=0.9, M=0.2)
+parameters("gate", tau=2.0, Tau=3.0)
+expressions("membrane")
+i_K = g * (V - v) * m * h + M
+I_K = K_o * k_o * M
+dV_dt = -i_K
+dv_dt = Ca - v + I_K
+dCa_dt = -Ca * ca + K_o
+dca_dt = k_o - ca * m
+expressions("gate")
+minf = 1 / (1 + exp(-(V + 40) / 6.8)) + v * 0.01 + Ca * ca * 0.001 + K_o * k_o
+Minf = i_K * 0.01 + I_K
+dm_dt = (minf - m) / tau
+dh_dt = -h * ca + Ca * 0.1
+dM_dt = (Minf - M) / Tau
+"""
+
+
 def plan(tier, seed):
     specs = [{"klass": "wide_ties", "i": 0}]
+    for k, sub in enumerate(["gate", "-gate", "membrane", "-membrane"]):
+        # sub-models whose missing variables differ only in case (V / v, Ca / ca, K_o / k_o, i_K / I_K, m / M): the layout of the
+        # missing-variables array must not depend on the hash seed either
+        specs.append({"klass": "sub_model_with_case_twins", "i": 700 + k, "sub": sub})
     for k, f in enumerate(classes.corpus(env.REPO, big=True)):
         big = os.path.getsize(f) > 12000
         specs.append({"klass": "corpus", "i": k, "file": os.path.relpath(f, env.REPO), "soft_timeout": 900, "big": big})
@@ -119,6 +143,8 @@ def run_case(spec, ctx):
         text = spec["text"]
     elif spec["klass"] == "wide_ties":
         text = WIDE
+    elif spec["klass"] == "sub_model_with_case_twins":
+        text = TWINS
     elif spec["klass"] == "corpus":
         text = open(os.path.join(env.REPO, spec["file"])).read()
     else:
@@ -164,7 +190,7 @@ def run_case(spec, ctx):
             seeds = list(range(8)) if tier == "quick" else list(range(32)) + [rng.randrange(2**32) for _ in range(8)]
         results = {}
         for sd in seeds:
-            r = fresh({"text": text, "requests": reqs}, sd)
+            r = fresh({"text": text, "requests": reqs, "sub": spec.get("sub")}, sd)
             out["evaluations"] += 1
             if "fatal" in r:
                 if sd == seeds[0]:
@@ -197,7 +223,13 @@ def run_case(spec, ctx):
             out["violations"].append({"kind": "state_layout_differs_across_hash_seeds", "detail": {"layouts": [list(k)[:8] for k in list(layouts)[:3]], "seed_groups": [v[:4] for v in layouts.values()][:3]}})
         orders = {tuple(r["sorted_assignments"]) for r in results.values()}
         cn["distinct_statement_orders"] = len(orders)
-        out["nontrivial"] = len(results) >= 3 and len(vectors) >= 2
+        out["nontrivial"] = len(results) >= 3 and (len(vectors) >= 2 or bool(spec.get("sub")))
+        if spec.get("sub"):
+            out["hash"] += ":" + spec["sub"]
+            cn["missing_variables_of_sub_model"] = len(first.get("missing_variables") or [])
+            miss = {tuple(map(tuple, r.get("missing_variables") or [])) for r in results.values()}
+            if len(miss) > 1:
+                out["violations"].append({"kind": "missing_variable_layout_differs_across_hash_seeds", "detail": {"layouts": [list(m_)[:8] for m_ in list(miss)[:3]]}})
     if out["violations"]:
         out["status"] = "violated"
     for v in out["violations"]:
